@@ -73,9 +73,7 @@ SetCache(M, v) == LET L == RWCopy(M.layers, Len(M.layers), M.base) IN
 \* MemCachedStore.Persist of the top private layer + persistNativeCache
 PersistTop(M) ==
     LET n == Len(M.layers) t == M.layers[n] IN
-    IF n = 1 THEN [M EXCEPT !.layers = <<>>, !.base = [st |-> [s \in AllSlots |-> IF s \in DOMAIN t.w THEN t.w[s] ELSE @.st[s]],
-                                                        nc |-> IF t.nc # NoCopy THEN t.nc ELSE @.nc]]
-    ELSE [M EXCEPT !.layers = [i \in 1 .. n - 1 |-> IF i < n - 1 THEN M.layers[i]
+    [M EXCEPT !.layers = [i \in 1 .. n - 1 |-> IF i < n - 1 THEN M.layers[i]
                                                      ELSE [w |-> t.w @@ M.layers[i].w,
                                                            nc |-> IF t.nc # NoCopy THEN t.nc ELSE M.layers[i].nc]]]
 DropTop(M) == [M EXCEPT !.layers = Front(@)]
@@ -276,7 +274,7 @@ Labels(M) ==
                       \cup (IF SubDepth(M) < MaxSub THEN {[k |-> "sub"]} ELSE {})
                       \cup (IF Depth(M) < MaxDepth
                             THEN {[k |-> "call", c |-> c, fl |-> f] : c \in E!Contracts, f \in Flags}
-                                 \cup (IF inC /\ Fund # 0 THEN {[k |-> "pay", c |-> c, amt |-> M.steps + 2] : c \in E!Contracts} ELSE {})
+                                 \cup (IF inC /\ Fund # 0 THEN {[k |-> "pay", c |-> c, amt |-> 1] : c \in E!Contracts} ELSE {})
                             ELSE {})
         all == leafs \cup opens \cup {[k |-> "end"]}
     IN  IF M.pend /\ ~AllowPending THEN {lb \in all : ~CallLikeLabel(lb)} ELSE all
